@@ -282,7 +282,8 @@ Section WithHash.
          exists t vd n sub, r_idt r = Some t /\ v = VDict vd /\
            verify_id_token lhash (svc_kwargs (cl_cfg c)) false None None t now = Ok vd /\
            assoc (PS "nonce") vd = Some (VStr n) /\ assoc n (cl_map c) = Some st /\
-           assoc (PS "sub") vd = Some (VStr sub) /\ cl_map c' = aset sub st (cl_map c)) /\
+           assoc (PS "sub") vd = Some (VStr sub) /\ cl_map c' = aset sub st (cl_map c) /\
+           sub_clash (cl_db c) (cl_map c) st sub = false) /\
       (assoc (verified_name (PS "id_token")) stored = None -> cl_map c' = cl_map c).
   Proof.
     unfold step_token. intro H.
@@ -304,6 +305,7 @@ Section WithHash.
       destruct (assoc n (cl_map c)) as [s|] eqn:Emap; try (pair_absurd H).
       destruct (str_eqb s st) eqn:Es; try (pair_absurd H). apply str_eqb_eq in Es. subst s.
       destruct (assoc (PS "sub") vd) as [[| | |sub| | |]|] eqn:Esub; try (pair_absurd H).
+      destruct (sub_clash (cl_db c) (cl_map c) st sub) eqn:Eclash; try (pair_absurd H).
       destruct (with_expires_at (resp_to_dict token_resp_params d1) now) as [s0| |] eqn:Ew; try (pair_absurd H).
       inversion H; subst c' s0.
       cbn [cl_cfg cl_db cl_map]. split; [reflexivity|]. split; [reflexivity|]. split.
@@ -495,13 +497,13 @@ Section World.
       cl_db c' = db_update (cl_db c) st stored /\
       (cl_map c' = cl_map c \/
        exists sub t, r_idt r = Some t /\ has_entry (PS "sub") (VStr sub) (t_claims t) = true /\
-                     cl_map c' = aset sub st (cl_map c)).
+                     sub_clash (cl_db c) (cl_map c) st sub = false /\ cl_map c' = aset sub st (cl_map c)).
   Proof.
     intro H. destruct out as [stored| |]; try (left; eapply step_token_reject; eauto; discriminate).
     right. destruct (step_token_accept lhash _ _ _ _ _ _ H) as (rec & Hrec & Hcfg & Hdb & Hver & Hnone).
     exists rec, stored. repeat split; auto.
     destruct (assoc (verified_name (PS "id_token")) stored) as [v|] eqn:Ev.
-    - right. destruct (Hver v eq_refl) as (t & vd & n & sub & Ht & _ & Hvd & _ & _ & Hsub & Hmap).
+    - right. destruct (Hver v eq_refl) as (t & vd & n & sub & Ht & _ & Hvd & _ & _ & Hsub & Hmap & Hclash).
       exists sub, t. repeat split; auto.
       apply verify_id_token_stages in Hvd as (_ & _ & _ & Hf & _).
       eapply from_dict_cstr_entry; eauto; reflexivity.
@@ -587,7 +589,7 @@ Section World.
       apply step_authz_shape in Hf as [->|(st & rec & stored & _ & _ & _ & ->)]; auto.
     - apply on_client_inv in H as [(_ & -> & _)|(c & c' & Hi & Hf & ->)]; auto.
       apply (map_of_w_set _ _ c); auto.
-      apply step_token_shape in Hf as [->|(rec & stored & _ & _ & _ & _ & [->|(sub & t & Ht & Hsub & ->)])]; auto.
+      apply step_token_shape in Hf as [->|(rec & stored & _ & _ & _ & _ & [->|(sub & t & Ht & Hsub & _ & ->)])]; auto.
       rewrite Ht in Hm. apply assoc_aset_other. intro E. subst sub. congruence.
     - apply on_client_inv in H as [(_ & -> & _)|(c & c' & Hi & Hf & ->)]; auto.
       apply (map_of_w_set _ _ c); auto.
@@ -595,7 +597,7 @@ Section World.
     - destruct (state2issuer w st) as [[| | |i| | |]|]; try (inversion H; subst; reflexivity).
       apply on_client_inv in H as [(_ & -> & _)|(c & c' & Hi & Hf & ->)]; auto.
       apply (map_of_w_set _ _ c); auto.
-      apply step_token_shape in Hf as [->|(rec & stored & _ & _ & _ & _ & [->|(sub & t & Ht & Hsub & ->)])]; auto.
+      apply step_token_shape in Hf as [->|(rec & stored & _ & _ & _ & _ & [->|(sub & t & Ht & Hsub & _ & ->)])]; auto.
       rewrite Ht in Hm. apply assoc_aset_other. intro E. subst sub. congruence.
   Qed.
 
@@ -630,6 +632,56 @@ Section World.
     - destruct (state2issuer w st) as [[| | |i| | |]|]; try (inversion H; subst; reflexivity).
       apply on_client_inv in H as [(_ & -> & _)|(c & c' & Hi & Hf & ->)]; auto.
       apply step_token_reject in Hf; auto. subst. apply w_set_same; auto.
+  Qed.
+
+  (* the nonce binding of a pending flow survives every operation that does not start a flow drawing that nonce *)
+  Lemma step_token_keeps_nonce c st r now c' out k s' rec :
+    step_token lhash c st r now = (c', out) ->
+    assoc k (cl_map c) = Some s' -> assoc s' (cl_db c) = Some rec -> assoc (PS "nonce") rec = Some (VStr k) ->
+    assoc k (cl_map c') = Some s'.
+  Proof.
+    intros H Hk Hs Hn.
+    apply step_token_shape in H as [->|(rec0 & stored & _ & _ & _ & _ & [->|(sub & t & _ & _ & Hclash & ->)])]; auto.
+    destruct (str_eqb sub k) eqn:E.
+    - apply str_eqb_eq in E. subst sub. unfold sub_clash in Hclash. rewrite Hk, Hs, Hn in Hclash.
+      cbn [option_eqb pyval_eqb] in Hclash. rewrite str_eqb_refl, andb_true_r in Hclash.
+      apply negb_false_iff, str_eqb_eq in Hclash. subst s'. apply assoc_aset_same.
+    - rewrite assoc_aset_other; auto. intro; subst. rewrite str_eqb_refl in E. discriminate.
+  Qed.
+
+  Lemma map_of_w_set_some (w : list (pystr * client)) i c c' j k v :
+    assoc i w = Some c -> (i = j -> assoc k (cl_map c') = Some v) -> map_of w j k = Some v ->
+    map_of (w_set w i c') j k = Some v.
+  Proof.
+    intros Hi Hc Hm. unfold map_of, w_set in *. destruct (str_eqb i j) eqn:E.
+    - apply str_eqb_eq in E. subst j. rewrite assoc_aset_same. auto.
+    - rewrite assoc_aset_other; auto. intro; subst. rewrite str_eqb_refl in E. discriminate.
+  Qed.
+
+  Theorem step_keeps_nonce_binding w o w' out j k s' rec :
+    step lhash w o = (w', out) -> op_draws_nonce o k = false ->
+    map_of w j k = Some s' -> rec_of w j s' = Some rec -> assoc (PS "nonce") rec = Some (VStr k) ->
+    map_of w' j k = Some s'.
+  Proof.
+    intros H Hd Hm Hr Hn.
+    assert (Htok : forall i c c' st r now o', assoc i w = Some c -> step_token lhash c st r now = (c', o') ->
+                     map_of (w_set w i c') j k = Some s').
+    { intros i c c' st r now o' Hi Hf. apply (map_of_w_set_some _ _ c); auto. intros ->.
+      unfold map_of in Hm. unfold rec_of in Hr. rewrite Hi in Hm, Hr. eapply step_token_keeps_nonce; eauto. }
+    assert (Hsame : forall i c c', assoc i w = Some c -> cl_map c' = cl_map c -> map_of (w_set w i c') j k = Some s').
+    { intros i c c' Hi Hmap. apply (map_of_w_set_some _ _ c); auto. intros ->.
+      unfold map_of in Hm. rewrite Hi in Hm. rewrite Hmap. exact Hm. }
+    destruct o as [i st nonce req|i r now|i st r now|i st u|st r now]; cbn [step op_draws_nonce] in *.
+    - destruct (assoc i w) as [c|] eqn:Ei; inversion H; subst; auto.
+      apply (map_of_w_set_some _ _ c); auto. intros ->. cbn [step_begin cl_map].
+      unfold map_of in Hm. rewrite Ei in Hm. rewrite assoc_aset_other; auto. apply neq_of_eqb in Hd. congruence.
+    - apply on_client_inv in H as [(_ & -> & _)|(c & c' & Hi & Hf & ->)]; auto.
+      apply (Hsame _ c); auto. apply step_authz_shape in Hf as [->|(st & rec0 & stored & _ & _ & _ & ->)]; auto.
+    - apply on_client_inv in H as [(_ & -> & _)|(c & c' & Hi & Hf & ->)]; auto. eapply Htok; eauto.
+    - apply on_client_inv in H as [(_ & -> & _)|(c & c' & Hi & Hf & ->)]; auto.
+      apply (Hsame _ c); auto. apply step_userinfo_shape in Hf as [->|(rec0 & d & _ & _ & ->)]; auto.
+    - destruct (state2issuer w st) as [[| | |i| | |]|]; try (inversion H; subst; exact Hm).
+      apply on_client_inv in H as [(_ & -> & _)|(c & c' & Hi & Hf & ->)]; auto. eapply Htok; eauto.
   Qed.
 
   (* ---- histories ---- *)
@@ -759,11 +811,11 @@ End World.
 Section Service.
   Variable lhash : pystr -> pystr -> pystr.
 
-  (* the registered signing algorithm, when the client has a registration response naming one, is enforced *)
+  (* the registered signing algorithm - or, without one, the algorithm the client is configured to use - is enforced *)
   Theorem service_expected_alg c r now c' stored v a :
     step_authz lhash c r now = (c', Ok stored) -> has_key (PS "error") stored = false ->
     assoc (verified_name (PS "id_token")) stored = Some v ->
-    cf_reg_sigalg (cl_cfg c) = Some a -> a <> [] ->
+    eff_sigalg (cl_cfg c) = Some a -> a <> [] ->
     exists t, r_idt r = Some t /\ (t_alg t = a \/ t_alg t = PS "none").
   Proof.
     intros H Herr Hv Ha Hne.
